@@ -97,6 +97,10 @@ fn case(t: &mut Tape, info: &mut CaseInfo) -> Result<(), String> {
         }
     }
     info.comparisons += 1;
+    // handing the calculator the already converted map must give the same attributes (incl. the flag)
+    let on_explicit = c.d.calculate(&explicit);
+    same("calculate(&explicitly converted map) vs calculate_for_mode on the source", &on_explicit, &full)?;
+    info.comparisons += 1;
 
     // every n from 0 beyond the total
     let mut prev: Option<DifficultyAttributes> = None;
